@@ -574,19 +574,66 @@ func (c *Context) Sqrt(d, x *Decimal) (Condition, error) {
 	nc.Rounding = RoundHalfEven
 	nc.MinExponent = c.MinExponent
 	nc.MaxExponent = c.MaxExponent
+	// d is approx with the exponent of the root; f with its original exponent
+	// is x (x itself may be aliased by d).
+	approx.Set(d)
+	f.Exponent += int32(e)
 	res := nc.round(d, d)
+	if res.Inexact() && !res.Subnormal() && d.Form == Finite {
+		// approx is itself a rounded value, within a unit of its last digit
+		// of the root. When the root lies that close to the midpoint of two
+		// results, rounding approx can go the wrong way, or see a tie where
+		// there is none. This is the step of the paper that settles it:
+		// compare the square of the midpoint with x.
+		res |= sqrtSettle(nc, d, &approx, &f)
+	}
 	if !res.Inexact() && d.Form == Finite {
-		// approx itself is a rounded value: when it happens to have no more
-		// than c.Precision significant digits the rounding above discards
-		// nothing, yet the root is exact only if the square of d is x.
-		// (f with its original exponent is x; x itself may be aliased by d.)
+		// When approx happens to have no more than c.Precision significant
+		// digits the rounding above discards nothing, yet the root is exact
+		// only if the square of d is x.
 		var sq Decimal
-		f.Exponent += int32(e)
 		if _, err := BaseContext.Mul(&sq, d, d); err != nil || sq.Cmp(&f) != 0 {
 			res |= Inexact | Rounded
 		}
 	}
 	return nc.goError(res)
+}
+
+// sqrtSettle replaces d, the half-even rounding of approx to nc.Precision
+// digits, by the half-even rounding of the exact square root of x, given that
+// approx is within one unit of its last digit of that root: the root is
+// compared with the midpoint between approx truncated to nc.Precision digits
+// and its successor, exactly, through the squares.
+func sqrtSettle(nc *Context, d, approx, x *Decimal) Condition {
+	var t, mid, sq Decimal
+	down := *nc
+	down.Rounding = RoundDown
+	if res := down.round(&t, approx); !res.Inexact() || res.Subnormal() || t.Form != Finite ||
+		t.NumDigits() != int64(nc.Precision) {
+		return 0
+	}
+	// mid = t + ulp/2, and its square, exactly.
+	mid.Set(&t)
+	mid.Coeff.Mul(&mid.Coeff, bigTen)
+	mid.Coeff.Add(&mid.Coeff, bigFive)
+	mid.Exponent--
+	sq.Coeff.Mul(&mid.Coeff, &mid.Coeff)
+	sq.Exponent = 2 * mid.Exponent
+	cmp := sq.Cmp(x)
+	if cmp < 0 || (cmp == 0 && t.Coeff.Bit(0) == 1) {
+		// The root is above the midpoint (or on it, and t is odd): t + ulp.
+		t.Coeff.Add(&t.Coeff, bigOne)
+		if t.NumDigits() > int64(nc.Precision) {
+			// 99..9 + 1: one digit more, and a trailing zero to give back.
+			t.Coeff.Quo(&t.Coeff, bigTen)
+			t.Exponent++
+		}
+	}
+	if t.Cmp(d) == 0 {
+		return 0
+	}
+	// Going through round again applies the exponent range to t.
+	return nc.round(d, &t)
 }
 
 // Cbrt sets d to the cube root of x.
